@@ -37,7 +37,7 @@ func init() {
 			{ID: "C05-R11", Title: "shared state is enumerated (shared with C09-R18)", Floor: 1, Run: sharedStateIsEnumerated},
 			{ID: "C05-R12", Title: "format arguments have a defined text", Floor: 1, Run: formatArgumentsHaveADefinedText},
 			{ID: "C05-R13", Title: "the compiler does not write into the syntax tree", Floor: 1, Run: theCompilerDoesNotWriteIntoTheSyntaxTree},
-			{ID: "C05-R14", Title: "entries made on the way are withdrawn with their cause", Floor: 2, Run: entriesMadeOnTheWayAreWithdrawnWithTheirCause},
+			{ID: "C05-R14", Title: "entries made on the way are withdrawn with their cause", Floor: 1, Run: entriesMadeOnTheWayAreWithdrawnWithTheirCause},
 			{ID: "C05-R15", Title: "hash keys carry the payload itself (shared with C15-R3)", Floor: 3, Run: c15r3},
 			{ID: "C05-R16", Title: "objects kept in process-wide tables are written only while they are built (shared with C08-R8)", Floor: 5, Run: cachedObjectsImmutable},
 		},
